@@ -33,7 +33,7 @@ import (
 
 func init() {
 	evid.Register(&evid.Check{ID: "C11", Level: "exploration", Run: run,
-		QuickBudget: 300 * time.Second, ThoroughBudget: 25 * time.Minute})
+		QuickBudget: 300 * time.Second, ThoroughBudget: 40 * time.Minute})
 }
 
 // caseInfo is what gets written to a replay / sample.
@@ -79,12 +79,17 @@ func (s *wsState) srcPath(p string) string {
 }
 
 type pending struct {
-	group string
-	rank  int
-	label string
-	flags *flagSet
-	what  string
-	c     caseInfo
+	// encFormats/encKind: for failures of a chain of encodings (transcoding, image file in another encoding
+	// as input of a selection): the formats involved and the kind of difference; flush attributes the
+	// failure to roundtrip/<format>/<kind> when the plain round trip through that format fails the same way.
+	encFormats []string
+	encKind    string
+	group      string
+	rank       int
+	label      string
+	flags      *flagSet
+	what       string
+	c          caseInfo
 }
 
 type runner struct {
@@ -106,8 +111,18 @@ func (rn *runner) count(key string, n int) {
 
 // fail records a violation candidate; the signature is fixed at the end of the run (see flush).
 func (rn *runner) fail(group string, rank int, label string, flags *flagSet, what string, c caseInfo) {
+	if flags != nil && rank == 0 {
+		rank = len(flags.args()) // the representative case of a group is one with the fewest flags
+	}
 	rn.mu.Lock()
-	rn.pendings = append(rn.pendings, pending{group, rank, label, flags, what, c})
+	rn.pendings = append(rn.pendings, pending{group: group, rank: rank, label: label, flags: flags, what: what, c: c})
+	rn.mu.Unlock()
+}
+
+// failEnc is fail for a difference that may be caused by one of the encodings involved (see pending).
+func (rn *runner) failEnc(formats []string, kind, group string, rank int, label string, what string, c caseInfo) {
+	rn.mu.Lock()
+	rn.pendings = append(rn.pendings, pending{encFormats: formats, encKind: kind, group: group, rank: rank, label: label, what: what, c: c})
 	rn.mu.Unlock()
 }
 
@@ -117,7 +132,44 @@ func (rn *runner) fail(group string, rank int, label string, flags *flagSet, wha
 // cases it breaks.
 func (rn *runner) flush() {
 	groups := map[string][]pending{}
+	rt := map[string]bool{}
 	for _, p := range rn.pendings {
+		if strings.HasPrefix(p.group, "roundtrip/") {
+			rt[p.group] = true
+		}
+	}
+	// a round-trip difference seen in every format is not a defect of one encoding
+	anyFormat := map[string]bool{}
+	for g := range rt {
+		parts := strings.SplitN(g, "/", 3)
+		all := true
+		for _, f := range formats {
+			if !rt["roundtrip/"+f+"/"+parts[2]] {
+				all = false
+			}
+		}
+		if all {
+			anyFormat[parts[2]] = true
+		}
+	}
+	for i := range rn.pendings {
+		p := &rn.pendings[i]
+		if parts := strings.SplitN(p.group, "/", 3); len(parts) == 3 && parts[0] == "roundtrip" && anyFormat[parts[2]] {
+			p.group = "roundtrip/every-format/" + parts[2]
+			rt[p.group] = true
+		}
+	}
+	for _, p := range rn.pendings {
+		if anyFormat[p.encKind] && len(p.encFormats) > 0 {
+			p.group = "roundtrip/every-format/" + p.encKind
+			p.encFormats = nil
+		}
+		for _, f := range p.encFormats {
+			if g := "roundtrip/" + f + "/" + p.encKind; rt[g] {
+				p.group = g
+				break
+			}
+		}
 		groups[p.group] = append(groups[p.group], p)
 	}
 	for _, g := range bufx.SortedKeys(groups) {
@@ -129,10 +181,19 @@ func (rn *runner) flush() {
 			if ps[i].label != ps[j].label {
 				return ps[i].label < ps[j].label
 			}
-			return ps[i].c.Workspace < ps[j].c.Workspace
+			if ps[i].c.Workspace != ps[j].c.Workspace {
+				return ps[i].c.Workspace < ps[j].c.Workspace
+			}
+			return fmt.Sprint(ps[i].c.Commands) < fmt.Sprint(ps[j].c.Commands)
 		})
 		label := ps[0].label
-		if ps[0].flags != nil {
+		hasFlags := false
+		for _, p := range ps {
+			if p.flags != nil {
+				hasFlags = true
+			}
+		}
+		if hasFlags {
 			common := flagSet{true, true, true}
 			for _, p := range ps {
 				if p.flags == nil {
@@ -164,6 +225,22 @@ var (
 // errClass normalises the first line of a CLI failure into a stable signature component.
 func errClass(stderr string) string {
 	s := stderr
+	if strings.HasPrefix(s, "panic:") {
+		// the function that panicked: the frame after "panic("
+		lines := strings.Split(s, "\n")
+		for i, l := range lines {
+			if strings.HasPrefix(l, "panic(") && i+2 < len(lines) {
+				f := lines[i+2]
+				if j := strings.LastIndexByte(f, '('); j > 0 {
+					f = f[:j]
+				}
+				if j := strings.LastIndexByte(f, '/'); j >= 0 {
+					f = f[j+1:]
+				}
+				return "panic-in-" + f
+			}
+		}
+	}
 	if i := strings.Index(s, "Failure: "); i >= 0 {
 		s = s[i+len("Failure: "):]
 	}
@@ -191,7 +268,7 @@ func isDecodeError(stderr string) bool {
 // parts of the check share these signatures, so that one decoding defect is one signature.
 func (rn *runner) readFail(format string, fl flagSet, args []string, res bufx.CLIResult, ci caseInfo) {
 	ci.Stderr = res.Stderr
-	rn.fail("read-image/"+format+"/"+errClass(res.Stderr), 0, "", &fl,
+	rn.fail("read-image/"+errClass(res.Stderr), 0, "", &fl,
 		fmt.Sprintf("buf cannot read an image it wrote itself: `buf %s` exits %d: %s", strings.Join(args, " "), res.ExitCode, clip(res.Stderr, 400)), ci)
 }
 
@@ -213,6 +290,17 @@ func run(r *evid.Run) {
 	r.Assume("`buf export` output has no buf.yaml: it is compared modulo module names, and when exported with imports, modulo is_import of the exported well-known types")
 	r.Assume("remote modules / commits in image metadata are out of scope here (offline); module names of local modules are covered")
 
+	if dump := os.Getenv("VERIF_C11_DUMP"); dump != "" {
+		// debugging aid: write every workspace (and its previous version) below the given directory
+		for _, w := range workspaces(false) {
+			_ = writeTree(filepath.Join(dump, w.Name, "src"), w.Files)
+			if w.V0 != nil {
+				_ = writeTree(filepath.Join(dump, w.Name, "v0"), w.v0Files())
+			}
+		}
+		r.Incomplete("dump only")
+		return
+	}
 	ctx := context.Background()
 	scratch, err := os.MkdirTemp("", "verif-c11-")
 	if err != nil {
@@ -268,6 +356,9 @@ func run(r *evid.Run) {
 	for _, k := range bufx.SortedKeys(pool.nCmd) {
 		r.Set("cli_calls_"+k, pool.nCmd[k])
 		r.Set("cli_cpu_ms_per_call_"+k, pool.cpuMS[k]/max(pool.nCmd[k], 1))
+	}
+	if pool.retries > 0 {
+		r.Set("cli_retries_after_deadline_or_worker_death", pool.retries)
 	}
 	if pool.died > 0 {
 		r.Set("cli_workers_died", pool.died)
@@ -653,7 +744,7 @@ func (rn *runner) transcode(s *wsState, f1, f2 string, k int) {
 	kinds, detail := diffImages(s.o, got, true)
 	for _, kd := range kinds {
 		ci.Detail = detail
-		rn.fail(group+"/"+kd, 0, "", nil, fmt.Sprintf("sources -> %s -> %s -> binpb differs from the original image: %s", f1, f2, detail), ci)
+		rn.failEnc([]string{f1, f2}, kd, group+"/"+kd, 0, "", fmt.Sprintf("sources -> %s -> %s -> binpb differs from the original image: %s", f1, f2, detail), ci)
 	}
 	if len(kinds) == 0 {
 		rn.count("enc_transcodings_ok", 1)
@@ -1037,7 +1128,11 @@ func (rn *runner) selectBuild(s *wsState, sel selection, idx int, small bool) {
 		for _, k := range kinds {
 			allOK = false
 			ci.Detail = detail
-			rn.fail("select-build/"+rt.name+"-route-vs-model/"+k, rank, shape, nil,
+			var encs []string
+			if rt.name == "image-yaml-gz" {
+				encs = []string{"yaml"}
+			}
+			rn.failEnc(encs, k, "select-build/"+rt.name+"-route-vs-model/"+k, rank, shape,
 				fmt.Sprintf("%s route differs from the targeting rule applied to the full image (targets %v + import closure as imports, every file as in the full image): %s", rt.name, targets, detail), ci)
 		}
 		if ok, why := dagOrdered(rt.out.img); !ok {
